@@ -118,7 +118,16 @@ def replay(ctx, payload):
 
 
 MANIFEST = {
-	'level_text': 'filled by bin/mkmanifest',
-	'level_note': 'placeholder',
+	'level_text': (
+		'The round-trip, size and layout theorems of C01/C02/C12 quantify over ALL well-formed schemas, so they already cover every schema of the dialect; '
+		'Properties/C15.lean restates them for `WF S` and adds that the emission plan is a function of the declarations. What ties generator-EMITTED text to the '
+		'interpreter is execution: random schemas recombining the shipped constructs are compiled by the real CLI + generator, imported under a scratch package, '
+		'and put through the same value/mutant differential as the shipped modules; each schema is generated twice and the texts compared.'
+	),
+	'level_note': (
+		'partial: no formal semantics of the emitted Python (tied by differential execution only); schemas limited to what harness/schemagen.py emits; '
+		'constructs outside the shipped dialect (signed aliases, conditional members of builtin integer type, children without own members, literal counts) '
+		'are excluded and listed in DESIGN.md.'
+	),
 	'technique': 'Lean 4 theorems for all well-formed schemas + differential execution of generator-emitted codecs on random schemas',
 }
